@@ -15,7 +15,7 @@ import (
 )
 
 var (
-	regRules            = regexp.MustCompile(`(?m)^profile.*{$((.|\n)*)}`)
+	regRules            = regexp.MustCompile(`(?m)^profile.*{$((.|\n)*?)^}`) // The first profile of the file, up to its own closing brace
 	regEndOfRules       = regexp.MustCompile(`(?m)([\t ]*include if exists <.*>\n)+}`)
 	regCleanStakedRules = util.ToRegexRepl([]string{
 		`(?m)^.*include <abstractions/base>.*$`, ``, // Remove mandatory base abstraction
@@ -82,7 +82,7 @@ func (s Stack) Apply(opt *Option, profile string) (string, error) {
 		if _, present := opt.ArgMap[name]; !present {
 			continue
 		}
-		stackedProfile := prebuild.RootApparmord.Join(name).MustReadFileAsString()
+		stackedProfile := profileFile(name).MustReadFileAsString()
 		m := regRules.FindStringSubmatch(stackedProfile)
 		if len(m) < 2 {
 			return "", fmt.Errorf("no profile found in %s", name)
